@@ -128,6 +128,12 @@ def run(index: RepoIndex, rep) -> None:
              floor=15)
     from .c09 import deep_copy_rule
     deep_copy_rule(index, rep, 'C08.R8')
+    rep.rule('C08.R10', 'composed dynamics: chain runs each configured part exactly once per '
+             'step with the given state and action, and the factory binds the parts as '
+             'configured (a part that runs twice moves or turns the agent twice)', floor=3)
+    from .wiring import chain_once, transition_factory_passthrough
+    chain_once(index, rep, 'C08.R10')
+    transition_factory_passthrough(index, rep, 'C08.R10')
     rep.rule('C08.R9', 'no pose object is shared between states: module-level Transform / Agent '
              'objects are only read through, never stored into a state (C03.R8)', floor=1)
     from .c03 import shared_mutable_constants
